@@ -313,6 +313,7 @@ def subscriber_send_scripts(ck, tier: str) -> None:
     the network recovers the client must be connected, receive a frame and transmit a command."""
     rng = random.Random(ck.seed * 877 + 7)
     n = 0
+    runs = []
     for gen in (4, 5):
         for _ in range(60 if tier == "quick" else 1500):
             pre = [("subsend", rng.choice([0, 1, 4]), rng.choice([0, 2]))]
@@ -324,6 +325,7 @@ def subscriber_send_scripts(ck, tier: str) -> None:
                                        ("net", rng.random() < 0.6, rng.choice([1, 5]))]))
             script = pre + [("subsend", -1, 0)] + PROBE
             pid0, out = sockcorr.run_impl(gen, script)
+            runs.append((gen, script, out))
             n += 1
             ck.count()
             if any(evs == [("tie",)] for evs in out) or len(out) != len(script):
@@ -338,6 +340,7 @@ def subscriber_send_scripts(ck, tier: str) -> None:
                               "trigger": {"class": "subscriber-send"},
                               "replay_cmd": f"cd /verif && PYTHONPATH=/repo:/verif /venv/bin/python -m harness.sockrun {gen} '{sockcorr.fmt(script)}'"})
                 break
+    teardown_acceptor(ck, "subscriber_send_scripts", runs)
     ck.extra["subscriber_send_scripts"] = n
 
 
@@ -347,6 +350,7 @@ def partial_input_scripts(ck, tier: str) -> None:
     monitor.  (Bytes that follow an unfinished frame on the same connection are its continuation: no claim.)"""
     rng = random.Random(ck.seed * 991 + 7)
     n = 0
+    runs = []
     for gen in (4, 5):
         hdr = 8 if gen == 4 else 20
         frames = sockrun.rx_catalogue(gen)
@@ -365,6 +369,7 @@ def partial_input_scripts(ck, tier: str) -> None:
                 script.append(("burn", rng.choice([254, 255, 255])))      # the probe commands straddle the counter wrap
             script += PROBE
             pid0, out = sockcorr.run_impl(gen, script)
+            runs.append((gen, script, out))
             n += 1
             ck.count()
             if any(evs == [("tie",)] for evs in out) or len(out) != len(script):
@@ -379,7 +384,46 @@ def partial_input_scripts(ck, tier: str) -> None:
                               "trigger": {"class": "partial-input"},
                               "replay_cmd": f"cd /verif && PYTHONPATH=/repo:/verif /venv/bin/python -m harness.sockrun {gen} '{sockcorr.fmt(script)}'"})
                 break
+    teardown_acceptor(ck, "partial_input_scripts", runs)
     ck.extra["partial_input_scripts"] = n
+
+
+TD = 10
+OBS_CODE = {"dial": 1, "open": 2, "refused": 3, "close": 4, "deadclose": 4}
+
+
+def teardown_acceptor(ck, family: str, runs: list) -> None:
+    """The network traces of scripts without close() stimuli, judged by the acceptor of coq/sock/Teardown.v (extracted
+    case 10): the sequence of connection attempts, their outcomes and the client's closes must be one the model can
+    produce (theorems C07_acceptor_*: such a sequence never has two connections open; every run of the model is
+    accepted).  runs = [(gen, script, out)]"""
+    cases, keep = [], []
+    for gen, script, out in runs:
+        if any(st[0] in ("close", "sendclose", "cancelclose") for st in script):
+            continue
+        obs = [(OBS_CODE[e[0]], e) for evs in out for e in evs if e[0] in OBS_CODE]
+        cases.append([TD] + [c for c, _ in obs])
+        keep.append((gen, script, out, obs))
+    if not cases:
+        return
+    res = common.run_model(cases)
+    n_bad = 0
+    for (gen, script, out, obs), r in zip(keep, res):
+        ck.extra["teardown_acceptor_traces"] = ck.extra.get("teardown_acceptor_traces", 0) + 1
+        ck.extra["teardown_acceptor_observables"] = ck.extra.get("teardown_acceptor_observables", 0) + len(obs)
+        if r[0] != -1 and n_bad < 2:
+            n_bad += 1
+            i = r[0]
+            what = {1: "a connection attempt while a connection is open or another attempt is in flight",
+                    2: "a connection opened with no attempt in flight", 3: "an attempt failed with none in flight",
+                    4: "a connection closed that was not the one open"}.get(obs[i][0], "?")
+            ck.violation("the sequence of connection attempts, outcomes and closes is not one the tear-down model can produce: " + what,
+                         {"kind": "socket-script-teardown-acceptor", "gen": gen, "family": family, "script": [list(x) for x in script],
+                          "impl_trace": [[list(e) for e in evs] for evs in out],
+                          "observables": [list(e) for _, e in obs], "rejected_at": i, "rejected": list(obs[i][1]),
+                          "connections_open_at_once_before": r[1],
+                          "trigger": {"class": "teardown-acceptor"},
+                          "replay_cmd": f"cd /verif && PYTHONPATH=/repo:/verif /venv/bin/python -m harness.sockrun {gen} '{sockcorr.fmt(script)}'"})
 
 
 def slow_teardown_scripts(ck, tier: str) -> None:
@@ -390,6 +434,7 @@ def slow_teardown_scripts(ck, tier: str) -> None:
     model's alphabet: judged by the healing monitor (connected again, a frame delivered, a command written)."""
     rng = random.Random(ck.seed * 1013 + 7)
     n = 0
+    runs = []
     for gen in (4, 5):
         for i in range(70 if tier == "quick" else 1500):
             d = rng.choice([3, 20, 50, 300, 2100])
@@ -400,7 +445,8 @@ def slow_teardown_scripts(ck, tier: str) -> None:
             else:
                 script += [("open",), ("adv", 1)]
             if rng.random() < 0.7:
-                script.append(("adv", 2047 - rng.randrange(0, min(d, 2000) + 1)))
+                # up to just before the instant (2 s after the first attempt's outcome) at which a retry left armed fires
+                script.append(("until", 2049 - rng.randrange(1, min(d, 2000) + 2)))
             else:
                 script.append(("adv", rng.choice([1, 500, 2048, 4096])))
             for _k in range(rng.choice([1, 1, 2, 3])):
@@ -408,6 +454,7 @@ def slow_teardown_scripts(ck, tier: str) -> None:
                                           ("adv", rng.choice([1, d // 2 + 1, d + 5, 2048])), ("net", rng.random() < 0.6, 1)]))
             script += [("adv", d + 5), ("slowclose", 0)] + PROBE
             pid0, out = sockcorr.run_impl(gen, script)
+            runs.append((gen, script, out))
             n += 1
             ck.count()
             if any(evs == [("tie",)] for evs in out) or len(out) != len(script):
@@ -422,6 +469,7 @@ def slow_teardown_scripts(ck, tier: str) -> None:
                               "trigger": {"class": "slow-teardown"},
                               "replay_cmd": f"cd /verif && PYTHONPATH=/repo:/verif /venv/bin/python -m harness.sockrun {gen} '{sockcorr.fmt(script)}'"})
                 break
+    teardown_acceptor(ck, "slow_teardown_scripts", runs)
     ck.extra["slow_teardown_scripts"] = n
 
 
@@ -482,7 +530,7 @@ def run_check(prop: str, tier: str, replay: str | None) -> int:
         "frames written by the client are identified against payloads produced by the package's own encoders (codec correctness is C03/C04's subject)",
     ]
     with common.Lock():
-        proved = ck.prove(also=["C02api"] if prop == "C02" else ["C15api"] if prop == "C15" else None)
+        proved = ck.prove(also=["C02api"] if prop == "C02" else ["C15api"] if prop == "C15" else ["C07td"] if prop == "C07" else None)
         if not proved:
             ck.violation("proof", {"theorem_file": f"coq/props/{prop}.v", "failed_at": getattr(ck, "failed_at", "?"),
                                    "log_tail": getattr(ck, "proof_log", "")[-1500:]}, found_input=False)
